@@ -2,5 +2,6 @@ INIT Init
 NEXT Next
 CONSTANTS
   Part = "linear"
+  Flaws = {"OriginalLinearSquares"}
   Thorough = FALSE
 INVARIANT ImplRefines_
